@@ -7,10 +7,11 @@ field through its `Add*` methods with the path walked so far in `keyPrefix`:
 
 * `AddString/AddInt/…/AddArray(key, v)`: `if filter, ok := fe.Fields[fe.keyPrefix+key]` → the filter's
   result is added to the wrapped encoder, otherwise the field itself;
-* `AddObject(key, m)`: `if fe.filtered(key, m) { return }` — a filter configured on the object's own path
-  receives the whole object and its result goes to the WRAPPED encoder, i.e. nothing inside is filtered
-  any more; otherwise `fe.keyPrefix += key + ">"` and the object is marshalled through the filter
-  encoder again (`logObjectMarshalerWrapper`).
+* `AddObject(key, m)`: a filter configured on the object's own path receives the whole object; if its
+  result is not an object (deleted, replaced) it goes to the wrapped encoder; in every other case
+  `fe.keyPrefix += key + ">"` and the object (under the key the filter gave it) is marshalled through the
+  filter encoder again (`logObjectMarshalerWrapper`), so the fields inside meet their own filters.
+  (Before fix 5e69734 a kept object went to the wrapped encoder directly: `encNodeOld`.)
 
 `Fields` is a Go map from path to filter: an association list with distinct paths here.
 -/
@@ -39,12 +40,20 @@ def emitLeaf (f : Field) : List Node :=
   | .skip => []
   | v => [.leaf f.key v]
 
-/-- …and for a filtered object: deleted, replaced by a string, or handed on as it is (possibly renamed)
-    with everything inside UNFILTERED -/
-def emitObj (f : Field) (kids : List Node) : List Node :=
+/-- …and for a filtered object BEFORE fix 5e69734: deleted, replaced by a string, or handed on as it is
+    (possibly renamed) with everything inside UNFILTERED -/
+def emitObjOld (f : Field) (kids : List Node) : List Node :=
   match f.val with
   | .skip => []
   | .other _ => [.obj f.key kids]
+  | v => [.leaf f.key v]
+
+/-- …and as it is now: `kids` are the fields inside, already encoded through the filter encoder under the
+    ORIGINAL key path (`fe.keyPrefix += key + ">"`, whatever the filter renamed the object to) -/
+def emitObj (f : Field) (encodedKids : List Node) : List Node :=
+  match f.val with
+  | .skip => []
+  | .other _ => [.obj f.key encodedKids]
   | v => [.leaf f.key v]
 
 mutual
@@ -57,11 +66,27 @@ def encNode (o : Oracles) (cfg : FCfg) (pre : Bytes) : Node → List Node
   | .obj k kids =>
     match lookupF cfg (pre ++ k) with
     | none => [.obj k (encList o cfg (pre ++ k ++ pathSep) kids)]
-    | some f => emitObj (applyFilter o f ⟨k, .other objTag⟩) kids
+    | some f => emitObj (applyFilter o f ⟨k, .other objTag⟩) (encList o cfg (pre ++ k ++ pathSep) kids)
 /-- the fields of an entry (or of an object), in order -/
 def encList (o : Oracles) (cfg : FCfg) (pre : Bytes) : List Node → List Node
   | [] => []
   | n :: r => encNode o cfg pre n ++ encList o cfg pre r
+end
+
+mutual
+/-- the dispatch BEFORE fix 5e69734 (`if fe.filtered(key, marshaler) { return nil }`) -/
+def encNodeOld (o : Oracles) (cfg : FCfg) (pre : Bytes) : Node → List Node
+  | .leaf k v =>
+    match lookupF cfg (pre ++ k) with
+    | none => [.leaf k v]
+    | some f => emitLeaf (applyFilter o f ⟨k, v⟩)
+  | .obj k kids =>
+    match lookupF cfg (pre ++ k) with
+    | none => [.obj k (encListOld o cfg (pre ++ k ++ pathSep) kids)]
+    | some f => emitObjOld (applyFilter o f ⟨k, .other objTag⟩) kids
+def encListOld (o : Oracles) (cfg : FCfg) (pre : Bytes) : List Node → List Node
+  | [] => []
+  | n :: r => encNodeOld o cfg pre n ++ encListOld o cfg pre r
 end
 
 /-- `FilterEncoder.EncodeEntry` / `Clone` + `With`: all fields of the entry, top-level prefix empty -/
